@@ -35,7 +35,10 @@ from harness.common import CORPUS_DIR
 RULE = ("cases: matrix-product chains of every length 2..8 x every root x open-leg dims {1,2,3} x zero padding of "
         "bonds (state / operator / generic chain classes, both from_tensor_list paths) and constant product states; "
         "integer chains n = 2..6 x every root x padding (kind mpsval: the Lean model evaluates its own binding record "
-        "on the library's tensors and the chain record on the inputs, exactly); "
+        "on the library's tensors and the chain record on the inputs, exactly); integer star / fork networks through "
+        "add_center_node / add_chain_node / add_main_chain_node / add_sub_chain_node in every accepted call order, "
+        "and constant_product_state / constant_ftps with padded bonds (kind specval: the Lean model evaluates gRecord "
+        "on the library's tensors and on the tensors handed in; product states = Kronecker product, exactly); "
         "stars (constant product state, and random tensors with random chain interleaving), forks (constant_ftps and "
         "random tensors with random main/sub interleaving), binary trees; TTNO.from_tensor on random trees <= 5 nodes "
         "with every leg assignment class and mode QR/SVD/tSVD, operators random / product / low-rank / zero; Ising and "
@@ -51,8 +54,11 @@ RULE = ("cases: matrix-product chains of every length 2..8 x every root x open-l
 PARTIAL = [
     "value level: from_tensor_value (any exact factorisation per pass => the network contracts to the input; the "
     "factorisation contract is a hypothesis, validated numerically per case), mps_chain_value (every root builds the "
-    "chain sum_bonds prod_i T_i) and pad_bond_value (end padding) are proved; front padding, product-state values, "
-    "operator matrices, star / fork / binary values are decided per input by the dense oracle; leg-level theorems "
+    "chain sum_bonds prod_i T_i), pad_bond_value / pad_front_value (padding), star_value / fork_value (every "
+    "accepted call sequence: record and value) and constant_product_state_value (delta-form tensors => Kronecker "
+    "product) are proved and replayed exactly on integer tensors (mpsval / specval); that constant_product_state / "
+    "constant_ftps produce delta-form tensors is checked per input (the model has shapes, not entries); "
+    "operator matrices and binary values are decided per input by the dense oracle; leg-level theorems "
     "cover the index logic: chain structure and leg "
     "order (mps_chain_structure), star / fork / binary structure and leg order (star_structure, fork_structure, "
     "binary_structure), the optional argument parent_leg of star and fork (parent_leg_attach: effect of one call "
@@ -225,6 +231,43 @@ def gen_cases(ctx):
                               "bonds": [vr.choice([1, 2, 2, 3]) for _ in range(n - 1)], "pad": pad,
                               "padpos": [vr.choice(["end", "end", "front"]) for _ in range(n - 1)],
                               "seed": vr.randrange(10 ** 9)})
+    # ---- (a'') value level: integer star / fork networks and product states (star_value / fork_value /
+    #      constant_product_state_value): stream `specval`
+    sr = ctx.subrng("specval")
+    for _ in range(ctx.n(14, 120)):
+        C = sr.randint(1, 3)
+        lens = [sr.randint(1, 3) for _ in range(C)]
+        todo, sched, started = list(lens), [], 0
+        while any(todo):
+            c = sr.choice([c for c in range(C) if todo[c] and c <= started])
+            todo[c] -= 1
+            sched.append(c)
+            if c == started:
+                started += 1
+        cases.append({"kind": "specval", "shape": "star", "lens": lens, "sched": sched, "seed": sr.randrange(10 ** 9)})
+    for _ in range(ctx.n(14, 120)):
+        nmain = sr.randint(1, 3)
+        sublens = [sr.randint(0, 2) for _ in range(nmain)]
+        events, made, subleft = [], 0, list(sublens)
+        while made < nmain or any(subleft[:made]):
+            cand = ([("m",)] if made < nmain else []) + [("s", i) for i in range(made) if subleft[i]]
+            ev = sr.choice(cand)
+            if ev[0] == "m":
+                made += 1
+            else:
+                subleft[ev[1]] -= 1
+            events.append(list(ev))
+        if len(events) < 2:
+            events, nmain, sublens = [["m"], ["m"]], 2, [0, 0]
+        cases.append({"kind": "specval", "shape": "fork", "nmain": nmain, "sublens": sublens, "events": events,
+                      "seed": sr.randrange(10 ** 9)})
+    for (L, C, d) in [(1, 1, 2), (2, 2, 2), (3, 2, 2), (2, 3, 2), (1, 4, 3), (3, 1, 3)] + \
+            [(sr.randint(1, 3), sr.randint(1, 3), 2) for _ in range(ctx.n(0, 10))]:
+        cases.append({"kind": "specval", "shape": "starconst", "L": L, "C": C, "d": d, "v": sr.randrange(d)})
+    for (w, h, bd, d) in [(2, 2, 1, 2), (2, 2, 2, 2), (3, 2, 2, 2), (2, 3, 3, 2), (3, 3, 2, 2), (2, 2, 3, 3)] + \
+            [(sr.randint(2, 3), sr.randint(2, 3), sr.randint(1, 2), 2) for _ in range(ctx.n(0, 10))]:
+        cases.append({"kind": "specval", "shape": "forkconst", "w": w, "h": h, "bd": bd, "d": d,
+                      "seed": sr.randrange(10 ** 9)})
     # ---- (b) star
     star_grid = [(L, C) for L in range(1, 5) for C in range(1, 5)]
     for (L, C) in star_grid:
@@ -531,6 +574,18 @@ def model_lines(case):
     if k == "mpsval":
         ps = " ".join(str(len(o)) for o in case["opens"])
         return [f"C19 mpsrec {case['n']} {case['r']} {ps}"]
+    if k == "specval":
+        sh = case["shape"]
+        if sh == "starconst":
+            return [f"C19 starconstrec {case['d']} {case['L']} {case['C']}"]
+        if sh == "forkconst":
+            return [f"C19 forkconstrec {case['d']} {case['w']} {case['h']} {case['bd']}"]
+        order, inputs, _ = _specval_spec(case)
+        if sh == "star":
+            return [f"C19 starrec {_shape_tok(inputs['C'].shape)} "
+                    + " ".join(f"{t.split('.')[0]}@-:{_shape_tok(inputs[t].shape)}" for t in order[1:])]
+        return ["C19 forkrec " + " ".join(("m" if t[0] == "M" else "s" + t[1:].split(".")[0]) + "@-:"
+                                          + _shape_tok(inputs[t].shape) for t in order)]
     if k == "mpsdirect":
         ps = " ".join(str(len(o)) for o in case["opens"])
         return [f"C19 mpsdirect {case['n']} {case['r']} {ps} | " + " ".join(_direct_tokens(case))]
@@ -635,7 +690,7 @@ def run_case(ctx, case, model_out=None):
     fn = {"mps": _case_mps, "mpsconst": _case_mpsconst, "starconst": _case_starconst, "star": _case_star,
           "forkconst": _case_forkconst, "fork": _case_fork, "binary": _case_binary,
           "starany": _case_any, "forkany": _case_any, "staranyl": _case_any, "forkanyl": _case_any,
-          "mpsdirect": _case_mpsdirect, "magn": _case_magn, "mpsval": _case_mpsval,
+          "mpsdirect": _case_mpsdirect, "magn": _case_magn, "mpsval": _case_mpsval, "specval": _case_specval,
           "fromtensor": _case_fromtensor, "model": _case_model, "gridpairs": _case_gridpairs,
           "nnham": _case_nnham, "exact": _case_exact}[case["kind"]]
     fn(ctx, case, model_out)
@@ -914,6 +969,217 @@ def _case_mpsval(ctx, case, model_out):
             probs.append(f"input tensor {i} was modified")
     if probs:
         ctx.oracle_fail(case, f"mpsval n={n} root={r}: " + "; ".join(probs[:3]))
+
+
+# ---- value level, star / fork: the Lean model evaluates `gRecord` on the library's integer tensors
+
+def _specval_spec(case):
+    """Integer tensors of a `specval` star / fork case.  Keys are the model's identifier tokens (`C`, `<c>.<j>`,
+    `M<i>`, `S<i>.<j>`).  Returns (tokens in call order, {token: int array}, specified bonds [((tok, axis), (tok, axis))]):
+    the bond of a node to its parent is its axis 0, the parent's axes are (parent, neighbours in attachment order, open)."""
+    rng = random.Random(case["seed"])
+    parent, order = {}, []
+    if case["shape"] == "star":
+        order.append("C")
+        parent["C"] = None
+        pos = [0] * len(case["lens"])
+        # the centre tensor carries the bond to chain c at axis c, whatever the call order
+        heads = [f"{c}.0" for c in range(len(case["lens"]))]
+        for c in case["sched"]:
+            j = pos[c]
+            pos[c] += 1
+            t = f"{c}.{j}"
+            order.append(t)
+            parent[t] = "C" if j == 0 else f"{c}.{j - 1}"
+    else:
+        made, sub = 0, {}
+        heads = None
+        for ev in case["events"]:
+            if ev[0] == "m":
+                t = f"M{made}"
+                parent[t] = None if made == 0 else f"M{made - 1}"
+                made += 1
+            else:
+                j = sub.get(ev[1], 0)
+                sub[ev[1]] = j + 1
+                t = f"S{ev[1]}.{j}"
+                parent[t] = f"M{ev[1]}" if j == 0 else f"S{ev[1]}.{j - 1}"
+            order.append(t)
+    attach = {t: [] for t in order}
+    for t in order:
+        if parent[t] is not None:
+            attach[parent[t]].append(t)
+    if heads is not None:
+        attach["C"] = heads
+    bond = {t: rng.choice([1, 2, 2, 3]) for t in order if parent[t] is not None}
+    opens = {t: [rng.choice([1, 2, 2, 3]) for _ in range(rng.choice([0, 1, 1, 2]))] for t in order}
+
+    def total():
+        x = 1
+        for t in order:
+            x *= bond.get(t, 1)
+            for d in opens[t]:
+                x *= d
+        return x
+    while total() > 3000:            # the model's evaluation is one big sum over all legs
+        big = [(0, t, None) for t in bond if bond[t] > 1] + \
+              [(1, t, k) for t in order for k, d in enumerate(opens[t]) if d > 1]
+        w, t, k = rng.choice(big)
+        if w == 0:
+            bond[t] -= 1
+        else:
+            opens[t][k] -= 1
+    inputs, pairs = {}, []
+    for t in order:
+        sh = ([bond[t]] if parent[t] is not None else []) + [bond[c] for c in attach[t]] + opens[t]
+        size = int(np.prod(sh)) if sh else 1
+        inputs[t] = np.array([rng.randint(-3, 3) for _ in range(size)], dtype=np.int64).reshape(sh)
+        k0 = 0 if parent[t] is None else 1
+        for a, c in enumerate(attach[t]):
+            pairs.append(((t, k0 + a), (c, 0)))
+    return order, inputs, pairs
+
+
+def _parse_grec(s):
+    """`nodes id:lab,..;.. | rec a~b ..` -> ([(id, [labels])], [(a, b)])"""
+    if s in ("bad-op", "none") or " | " not in s:
+        return None
+    try:
+        pn, pr = s.split(" | ")
+        nodes = []
+        for tok in pn[len("nodes "):].split(";"):
+            i, labs = tok.split(":")
+            nodes.append((i, [x for x in labs.split(",") if x != ""]))
+        body = pr[len("rec "):]
+        return nodes, ([] if body == "-" else [tuple(x.split("~")) for x in body.split()])
+    except ValueError:
+        return None
+
+
+def _case_specval(ctx, case, model_out):
+    from pytreenet.special_ttn.star import StarTreeTensorNetwork, StarTreeTensorState
+    from pytreenet.special_ttn.fttn import ForkTreeTensorNetwork, ForkTreeProductState, constant_ftps
+    from harness import einsum_corr
+    sh = case["shape"]
+    what = f"specval {sh} " + " ".join(f"{k}={case[k]}" for k in case if k not in ("kind", "shape"))
+    ctx.tally("specval", sh)
+    inputs = spec_pairs = local = None
+    try:
+        if sh == "star":
+            order, inputs, spec_pairs = _specval_spec(case)
+            to_lib = lambda t: "center" if t == "C" else "node" + t.replace(".", "_")      # noqa: E731
+            ttn = StarTreeTensorNetwork() if case["seed"] % 2 else StarTreeTensorState(central_node_identifier="center")
+            ttn.add_center_node(inputs["C"].astype(float))
+            for t in order[1:]:
+                ttn.add_chain_node(inputs[t].astype(float), int(t.split(".")[0]))
+        elif sh == "fork":
+            order, inputs, spec_pairs = _specval_spec(case)
+            to_lib = _fork_tok
+            ttn = ForkTreeTensorNetwork() if case["seed"] % 2 else ForkTreeProductState()
+            for t in order:
+                if t[0] == "M":
+                    ttn.add_main_chain_node(inputs[t].astype(float))
+                else:
+                    ttn.add_sub_chain_node(inputs[t].astype(float), int(t[1:].split(".")[0]))
+        elif sh == "starconst":
+            to_lib = lambda t: "central" if t == "C" else "site" + t.replace(".", "_")     # noqa: E731
+            ttn = StarTreeTensorState.constant_product_state(case["v"], case["d"], case["L"], case["C"])
+            local = np.zeros(case["d"], dtype=np.int64)
+            local[case["v"]] = 1
+        else:
+            to_lib = _fork_tok
+            lr = random.Random(case["seed"])
+            local = np.array([lr.randint(-3, 3) for _ in range(case["d"])], dtype=np.int64)
+            if not local.any():
+                local[lr.randrange(case["d"])] = 2
+            ttn = constant_ftps(local.astype(float), case["w"], case["h"], bond_dim=case["bd"])
+        got, corder = ttn.completely_contract_tree(to_copy=True)
+    except Exception as e:  # noqa: BLE001
+        ctx.oracle_fail(case, f"{what}: construction / full contraction raised {type(e).__name__}: {str(e)[:160]}")
+        return
+    parsed = _parse_grec(model_out[0]) if model_out else None
+    ctx.count(("specval", what), nontrivial=len(ttn.nodes) >= 3, corr=True)
+    if parsed is None:
+        ctx.corr_fail(case, f"{what}: the library built a network, the model answered {model_out}")
+        return
+    nodes, rec = parsed
+    if [to_lib(i) for i, _ in nodes] != list(ttn.nodes.keys()):
+        ctx.corr_fail(case, f"{what}: dict order impl={list(ttn.nodes.keys())} model={[i for i, _ in nodes]}")
+        return
+    num, dims, lib_leaves, labs_of = {}, [], [], {}
+    for i, labs in nodes:
+        t = np.asarray(ttn.tensors[to_lib(i)])
+        if t.ndim != len(labs) or len(set(labs)) != len(labs) or set(labs) != {f"{i}#{a}" for a in range(t.ndim)}:
+            ctx.corr_fail(case, f"{what}: node {i} has {t.ndim} legs, model lists {labs}")
+            return
+        if np.abs(t.imag).max(initial=0) != 0 or np.abs(t.real - np.round(t.real)).max(initial=0) != 0:
+            ctx.oracle_fail(case, f"{what}: tensor of node {i} is no longer integer")
+            return
+        for l, d in zip(labs, t.shape):
+            num[l] = len(dims)
+            dims.append(int(d))
+        labs_of[i] = labs
+        lib_leaves.append((labs, np.round(t.real).astype(np.int64)))
+    bound = {x for pr in rec for x in pr}
+    free = [f"{i}#{a}" for i, labs in nodes for a in range(len(labs)) if f"{i}#{a}" not in bound]
+    lines = [_einrec(num, dims, free, rec, lib_leaves)]                 # model's record, library tensors
+    if inputs is not None:
+        in_leaves = [([f"{i}#{a}" for a in range(inputs[i].ndim)], inputs[i]) for i, _ in nodes]
+        if any(tuple(dims[num[l]] for l in labs) != arr.shape for labs, arr in in_leaves):
+            ctx.corr_fail(case, f"{what}: shapes of the library's tensors are not the input shapes permuted by the model's legs")
+            return
+        lines.append(_einrec(num, dims, free, rec, in_leaves))          # model's record, tensors handed in
+    outs = ctx.lean.batch(lines)
+    tabs = [einsum_corr.parse_table(o, "full") for o in outs]
+    if any(t is None for t in tabs):
+        ctx.corr_fail(case, f"{what}: einrec answered {[o[:40] for o in outs]} (record {rec})")
+        return
+    # the library's own full contraction; its axes are the open legs of the nodes in contraction order
+    got = np.asarray(got)
+    inv = {to_lib(i): i for i, _ in nodes}
+    axes = []
+    for nid in corder:
+        nd = ttn.nodes[nid]
+        axes += [labs_of[inv[nid]][p] for p in nd.open_legs]
+    if len(axes) != got.ndim or sorted(axes) != sorted(free):
+        ctx.corr_fail(case, f"{what}: open legs of the full contraction {axes} are not the model's unbound legs {free}")
+        return
+    got = np.transpose(got, [axes.index(l) for l in free]) if free else got
+    flat = [complex(x) for x in got.reshape(-1)]
+    if len(flat) != len(tabs[0]) or any(a != b for a, b in zip(flat, tabs[0])):
+        ctx.corr_fail(case, f"{what}: the library's full contraction differs from the model's evaluation (netValue) "
+                            f"of its binding record {rec} on the library's tensors")
+        return
+    probs = []
+    if inputs is not None:
+        if tabs[1] != tabs[0]:
+            probs.append(f"the network built (record {rec}) evaluated on the tensors handed in differs from its value "
+                         f"on the stored tensors (star_value / fork_value (a))")
+        # independent: NumPy einsum over the tensors handed in, bonds from the documented convention
+        sym = {}
+        for k, (a, b) in enumerate(spec_pairs):
+            sym[a] = sym[b] = k
+        fl = [(i, a) for i, _ in nodes for a in range(inputs[i].ndim) if (i, a) not in sym]
+        for k, l in enumerate(fl):
+            sym[l] = len(spec_pairs) + k
+        args = []
+        for i, _ in nodes:
+            args += [inputs[i], [sym[(i, a)] for a in range(inputs[i].ndim)]]
+        ref = np.einsum(*args, [sym[l] for l in fl])
+        if [f"{i}#{a}" for i, a in fl] != free:
+            probs.append(f"unbound legs of the model {free} are not the specified open legs {fl}")
+        elif [complex(x) for x in np.asarray(ref).reshape(-1)] != flat:
+            probs.append("full contraction differs from the einsum of the tensors handed in over the specified bonds")
+    else:
+        ref = np.array([1], dtype=np.int64)
+        for _ in nodes:
+            ref = np.kron(ref, local)
+        if len(free) != len(nodes) or [complex(x) for x in ref] != flat:
+            probs.append("contraction is not the Kronecker product of the local states "
+                         "(constant_product_state_value)")
+        ctx.tally("specval_bond", max(dims))
+    if probs:
+        ctx.oracle_fail(case, f"{what}: " + "; ".join(probs[:3]))
 
 
 def _case_mpsconst(ctx, case, model_out):
